@@ -984,6 +984,54 @@ func propagatesAllUnbound(w *World, fn *ssa.Function) bool {
 
 // ---------- R8.8: who may write the unit bindings of a certificate problem ----------
 
+// propagationCore: prop is the method the RUP test calls that (transitively) writes the unit bindings; core is the
+// function holding the sweep over the clauses (prop itself, or a helper of it such as `propagateOnce(done)`): the
+// function reachable from prop, in package explain, with a loop reading pb.Clauses[i] that writes bindings itself.
+func propagationCore(w *World) (prop, core *ssa.Function) {
+	rup := rupTest(w)
+	if rup == nil {
+		return nil, nil
+	}
+	eff := w.effects()
+	for _, ci := range callsIn(rup) {
+		for _, c := range w.Callees[ci] {
+			if w.PkgName(c) == "explain" && c.Signature.Recv() != nil && eff.WritesAny(c, "explain.Problem.units") {
+				prop = c
+			}
+		}
+	}
+	if prop == nil {
+		return nil, nil
+	}
+	readsClausesInLoop := func(f *ssa.Function) bool {
+		for _, h := range loopHeaders(f) {
+			for b := range loopBlocks(f, h) {
+				for _, ins := range b.Instrs {
+					if ia, ok := ins.(*ssa.IndexAddr); ok {
+						if _, isC := isFieldLoad(ia.X, "explain.Problem", "Clauses"); isC {
+							return true
+						}
+					}
+				}
+			}
+		}
+		return false
+	}
+	cands := []*ssa.Function{prop}
+	for g := range w.Reachable(prop) {
+		if g != prop && w.PkgName(g) == "explain" {
+			cands = append(cands, g)
+		}
+	}
+	sortFns(cands[1:])
+	for _, f := range cands {
+		if len(f.Blocks) > 0 && eff.DirectWritesAny(f, "explain.Problem.units") && readsClausesInLoop(f) {
+			return prop, f
+		}
+	}
+	return prop, prop
+}
+
 func ruleR8_8(w *World, r *Report) {
 	r.Rule("R8.8", "the unit bindings of an existing explain.Problem are written only by the propagation method and by the RUP test that restores them; other functions write bindings only into a problem they are building", 2)
 	rup := rupTest(w)
@@ -1062,6 +1110,27 @@ func ruleR8_8(w *World, r *Report) {
 		}
 		return true
 	}
+	// helpers of the propagation method: unexported functions all of whose callers are the method or such helpers
+	inner := map[*ssa.Function]bool{prop: true}
+	for changed := true; changed; {
+		changed = false
+		for g := range w.Reachable(prop) {
+			if inner[g] || w.PkgName(g) != "explain" || (g.Object() != nil && g.Object().Exported()) || len(w.Callers[g]) == 0 {
+				continue
+			}
+			all := true
+			for _, site := range w.Callers[g] {
+				if !inner[site.Parent()] {
+					all = false
+				}
+			}
+			if all {
+				inner[g] = true
+				changed = true
+			}
+		}
+	}
+	eff := w.effects()
 	for _, fn := range w.Fns {
 		if w.PkgName(fn) != "explain" {
 			continue
@@ -1069,6 +1138,20 @@ func ruleR8_8(w *World, r *Report) {
 		var sites []string
 		foreign := false
 		allInstrs(fn, func(ins ssa.Instruction) {
+			if c, isCall := ins.(*ssa.Call); isCall {
+				// the table of bindings handed to a helper that writes it (`bind(pb.units, lit)`)
+				if callee := c.Call.StaticCallee(); callee != nil {
+					for i, a := range c.Call.Args {
+						if b, isU := isFieldLoad(a, "explain.Problem", "units"); isU && eff.WritesParamElems(callee, i) {
+							sites = append(sites, w.InstrPos(c))
+							if !buildingOnly(fn, b, 0) {
+								foreign = true
+							}
+						}
+					}
+				}
+				return
+			}
 			st, ok := ins.(*ssa.Store)
 			if !ok {
 				return
@@ -1095,8 +1178,8 @@ func ruleR8_8(w *World, r *Report) {
 		}
 		key := w.FuncName(fn) + " writes unit bindings"
 		switch {
-		case fn == prop || fn == rup:
-			r.OK("R8.8", key, sites[0], "the propagation method / the RUP test that restores the bindings")
+		case fn == prop || fn == rup || inner[fn]:
+			r.OK("R8.8", key, sites[0], "the propagation method (or a helper only it calls) / the RUP test that restores the bindings")
 		case !foreign:
 			r.OK("R8.8", key, sites[0], "only into a problem under construction (allocated here or by every caller)")
 		default:
@@ -1114,14 +1197,7 @@ func ruleR8_9(w *World, r *Report) {
 		r.Unk("R8.9", "RUP test", "-", "not found")
 		return
 	}
-	var prop *ssa.Function
-	for _, ci := range callsIn(rup) {
-		for _, c := range w.Callees[ci] {
-			if w.PkgName(c) == "explain" && c.Signature.Recv() != nil && w.effects().WritesAny(c, "explain.Problem.units") {
-				prop = c
-			}
-		}
-	}
+	_, prop := propagationCore(w) // the function holding the sweep over the clauses
 	if prop == nil {
 		r.Unk("R8.9", "propagation method", "-", "the RUP test calls no method that writes units")
 		return
@@ -1223,6 +1299,9 @@ func ruleR8_9(w *World, r *Report) {
 			}
 			if _, isMk := ia.X.(*ssa.MakeSlice); isMk && typeShort(ia.X.Type()) == "[]bool" {
 				justified = true
+			}
+			if _, isP := ia.X.(*ssa.Parameter); isP && typeShort(ia.X.Type()) == "[]bool" {
+				justified = true // the table is kept by the caller across sweeps (`propagateOnce(done)`)
 			}
 		}
 		if !justified {
